@@ -27,32 +27,53 @@ def norm_header(h):
     h = re.sub(r"\s+", " ", h).strip()
     return h
 
+def blocks_of(txt):
+    """(header, body) of every top-level `impl` / `trait` block"""
+    out = []
+    for m in re.finditer(r"\b(unsafe\s+)?(impl|(?:pub(?:\([a-z]+\))?\s+)?(?:unsafe\s+)?trait)\b", txt):
+        j = txt.find("{", m.end())
+        if j < 0: continue
+        header = txt[m.start():j]
+        if ";" in header: continue
+        depth = 0; k = j
+        while k < len(txt):
+            if txt[k] == "{": depth += 1
+            elif txt[k] == "}":
+                depth -= 1
+                if depth == 0: break
+            k += 1
+        out.append((header, txt[j:k + 1]))
+    return out
+
 def scan(src_root):
-    inv = {}
+    """file -> sorted [header, fn names]: every `impl Trait for Type` block with all its functions, and every inherent
+    `impl Type` block with those of its functions whose NAME is also a trait method's somewhere in the crate (method-call
+    syntax prefers the inherent one: a new one silently replaces the trait method for existing callers)"""
+    texts = {}
     for root, _, fs in os.walk(src_root):
         for f in sorted(fs):
-            if not f.endswith(".rs"): continue
-            p = os.path.join(root, f); rel = os.path.relpath(p, src_root)
-            txt = strip(open(p).read())
-            blocks = []
-            for m in re.finditer(r"\b(unsafe\s+)?impl\b", txt):
-                # header up to the opening brace
-                j = txt.find("{", m.end())
-                if j < 0: continue
-                header = txt[m.start():j]
-                if ";" in header or " for " not in re.sub(r"\s+", " ", header): continue
-                # `for<'a>` higher-ranked bounds are not trait impls
-                depth = 0; k = j
-                while k < len(txt):
-                    if txt[k] == "{": depth += 1
-                    elif txt[k] == "}":
-                        depth -= 1
-                        if depth == 0: break
-                    k += 1
-                body = txt[j:k + 1]
-                names = sorted(re.findall(r"\bfn\s+([A-Za-z_][A-Za-z0-9_]*)", body))
-                blocks.append([norm_header(header), names])
-            inv[rel] = sorted(blocks)
+            if f.endswith(".rs"):
+                p = os.path.join(root, f)
+                texts[os.path.relpath(p, src_root)] = strip(open(p).read())
+    fn_re = r"\bfn\s+([A-Za-z_][A-Za-z0-9_]*)"
+    trait_names = set()
+    for rel, txt in texts.items():
+        for header, body in blocks_of(txt):
+            h = re.sub(r"\s+", " ", header)
+            if re.search(r"\btrait\b", h) or " for " in h:
+                trait_names.update(re.findall(fn_re, body))
+    inv = {}
+    for rel, txt in texts.items():
+        blocks = []
+        for header, body in blocks_of(txt):
+            h = re.sub(r"\s+", " ", header)
+            if re.search(r"\btrait\b", h.split("{")[0]) and not h.lstrip().startswith(("impl", "unsafe impl")): continue
+            names = sorted(re.findall(fn_re, body))
+            if " for " in h: blocks.append([norm_header(header), names])
+            else:
+                shadow = [n for n in names if n in trait_names]
+                blocks.append(["inherent " + norm_header(header), shadow])
+        inv[rel] = sorted(blocks)
     return inv
 
 def diff(pinned, cur, files):
@@ -71,7 +92,9 @@ def diff(pinned, cur, files):
             ca, cb = Counter(da.get(h, [])), Counter(db.get(h, []))
             if ca != cb:
                 added = sorted((cb - ca).elements()); removed = sorted((ca - cb).elements())
-                if h not in da: out.append("src/%s: new trait implementation `%s` (%s)" % (f, h, ", ".join(added) or "no functions"))
+                if h.startswith("inherent "):
+                    if added: out.append("src/%s: `%s` has new methods named like trait methods (%s): method-call syntax now resolves to them" % (f, h[9:], ", ".join(added)))
+                elif h not in da: out.append("src/%s: new trait implementation `%s` (%s)" % (f, h, ", ".join(added) or "no functions"))
                 elif h not in db: out.append("src/%s: trait implementation `%s` is gone" % (f, h))
                 else: out.append("src/%s: `%s` now %s" % (f, h, "; ".join(x for x in ["overrides / adds " + ", ".join(added) if added else "", "no longer defines " + ", ".join(removed) if removed else ""] if x)))
     return out
